@@ -2,6 +2,7 @@ package amqp
 
 import (
 	"bytes"
+	"sync"
 	"sync/atomic"
 	"time"
 
@@ -44,10 +45,21 @@ type ConfirmMeta struct {
 	DeliveryTag      uint64
 	ExpectedConfirms int
 	ActualConfirms   int
+	lock             sync.Mutex
 }
 
 // CanConfirm returns is message can be confirmed
 func (meta *ConfirmMeta) CanConfirm() bool {
+	return meta.ActualConfirms == meta.ExpectedConfirms
+}
+
+// Confirm counts one confirmation of the message (a queue took it, or the store wrote it) and reports whether
+// that was the one completing it. The queue pushes run on the publisher's goroutine and the store on its own:
+// exactly one caller gets true, and that caller owes the publisher the acknowledgement
+func (meta *ConfirmMeta) Confirm() bool {
+	meta.lock.Lock()
+	defer meta.lock.Unlock()
+	meta.ActualConfirms++
 	return meta.ActualConfirms == meta.ExpectedConfirms
 }
 
